@@ -4,27 +4,43 @@ import numpy as _np
 from .core import SymNum, is_sym, sym_and, sym_or, sym_not, sym_implies
 
 
-def make_function(S, name, dim, out_len=1, cache=True):
-    """A sparseSpACE Function whose values are given by the source S: uninterpreted in lifted mode,
-    a table from the solver model in concrete mode.  With cache=False Function.__call__ is bypassed
-    (needed when the coordinates themselves are symbolic: the cache hashes coordinate tuples)."""
+_SOURCE = [None]  # the Source of the harness run in progress (lets pickled harness objects find it again)
+_FUNCS = {}
+
+
+def current_source():
+    return _SOURCE[0]
+
+
+def _base_function():
     from sparseSpACE.Function import Function
-    F = S.func(name, dim, out_len)
+    return Function
+
+
+def _make_classes():
+    Function = _base_function()
 
     class HarnessFunction(Function):
-        def __init__(self):
+        """sparseSpACE Function whose values come from the Source: uninterpreted in lifted mode, a table in concrete mode.
+        Picklable (dill): it refers to the Source through the module-level registry only."""
+
+        def __init__(self, name, dim, out_len):
             super().__init__()
-            self.F = F
+            self.name, self.dim_, self.out_len = name, dim, out_len
             self.eval_log = []
 
+        @property
+        def F(self):
+            return _FUNCS[self.name]
+
         def output_length(self):
-            return out_len
+            return self.out_len
 
         def eval(self, coordinates):
-            self.eval_log.append(tuple(coordinates))
-            v = F(list(coordinates))
-            if S.lifted:
-                a = _np.empty(out_len, dtype=object)
+            self.eval_log.append(tuple(float(c) if not is_sym(c) else c for c in coordinates))
+            v = self.F(list(coordinates))
+            if _SOURCE[0].lifted:
+                a = _np.empty(self.out_len, dtype=object)
                 for i, x in enumerate(v):
                     a[i] = x
                 return a
@@ -34,7 +50,7 @@ def make_function(S, name, dim, out_len=1, cache=True):
             coordinates = _np.asarray(coordinates)
             if coordinates.ndim == 1:
                 return self.eval(coordinates)
-            out = _np.empty(coordinates.shape[:-1] + (out_len,), dtype=object if S.lifted else float)
+            out = _np.empty(coordinates.shape[:-1] + (self.out_len,), dtype=object if _SOURCE[0].lifted else float)
             for idx in _np.ndindex(coordinates.shape[:-1]):
                 out[idx] = self.eval(coordinates[idx])
             return out
@@ -44,9 +60,29 @@ def make_function(S, name, dim, out_len=1, cache=True):
             c0 = coordinates[0]
             if is_sym(c0) or _np.isscalar(c0):
                 return self.eval(coordinates)
-            return self.eval_vectorized(_np.array([list(c) for c in coordinates], dtype=object if S.lifted else float))
+            return self.eval_vectorized(_np.array([list(c) for c in coordinates], dtype=object if _SOURCE[0].lifted else float))
 
-    return (HarnessFunction if cache else HarnessFunctionNoCache)()
+    return HarnessFunction, HarnessFunctionNoCache
+
+
+_CLASSES = []
+
+
+def make_function(S, name, dim, out_len=1, cache=True):
+    """A sparseSpACE Function whose values are given by the source S: uninterpreted in lifted mode,
+    a table from the solver model in concrete mode.  With cache=False Function.__call__ is bypassed
+    (needed when the coordinates themselves are symbolic: the cache hashes coordinate tuples)."""
+    if not _CLASSES:
+        _CLASSES.extend(_make_classes())
+        import sys
+        mod = sys.modules[__name__]
+        for c in _CLASSES:  # module-level names so that pickling by reference works
+            setattr(mod, c.__name__, c)
+            c.__module__ = __name__
+            c.__qualname__ = c.__name__
+    _SOURCE[0] = S
+    _FUNCS[name] = S.func(name, dim, out_len)
+    return (_CLASSES[0] if cache else _CLASSES[1])(name, dim, out_len)
 
 
 def sorted_reals(S, name, n, strict=True):
